@@ -91,6 +91,8 @@ class DiscoverSubcircuits(UsedQubitIndicesVisitor):
             return subcircuits[:]
 
     def visit_LoopStatement(self, obj, context=None):
+        if not isinstance(obj.iterations, int):
+            raise JaqalError(f"Loop count {obj.iterations} is not an integer")
         return self.visit(obj.statements, context=context, reps=obj.iterations)
 
     def visit_CaseStatement(self, obj, context=None):
